@@ -306,6 +306,13 @@ func (r *Result) Ob(rule, construct, pos string, ok bool, detail string) {
 	}
 }
 
+// Absorb appends the plain obligations of a partial result produced elsewhere (e.g. by a parallel worker).
+func (r *Result) Absorb(o *Result) {
+	for _, ob := range o.Obligations {
+		r.Ob(ob.Rule, ob.Construct, ob.Pos, ob.Discharged, ob.Detail)
+	}
+}
+
 // GroupOb records an obligation that belongs to a group of instances of one
 // construct (e.g. all corpus fields expanded from the same template branch).
 // Failing members are reported as ONE finding per (rule, group) that lists how
